@@ -176,6 +176,19 @@ def shrink(c):
 TIES = [Tie("headers_sync_state", "tie/drivers/headerssync_drv.cpp", "Extract_HeadersSync.v", "headerssync_driver.ml", gen,
             predicate="driver", nontrivial=lambda c: c.count(";") >= 1, classify=lambda c: "hs/p%s" % c.split()[1], shrink=shrink)]
 
-LEVEL_TEXT = "(filled in below)"
-LEVEL_NOTE = "(filled in below)"
+LEVEL_TEXT = ("Coq theorems about a function-by-function model of HeadersSyncState, for ALL peer histories, all parameters (period, offset, "
+              "buffer, max commitments, minimum work), arbitrary commitment bits and arbitrary PermittedDifficultyTransition / GetBlockProof "
+              "functions: no header is released unless the call started in REDOWNLOAD, which is entered only with first-pass work >= minimum; "
+              "between calls at most max_commitments bits and redownload_buffer_size headers are held; everything released over a history "
+              "is one continuous chain from the sync start, consisting of the received second-pass headers unchanged; a release leaves "
+              "exactly redownload_buffer_size accepted headers behind it unless the re-downloaded chain itself reached the minimum work; "
+              "every accepted second-pass header connects, has a permitted difficulty transition and matches the next stored commitment "
+              "bit. Model tied to the real class by differential execution on synthetic peer histories.")
+LEVEL_NOTE = ("Partial: the commitment clause is proved per header (queue order), not as a statement about first-pass heights; the "
+              "proof-of-work check of released headers is net_processing's CheckHeadersPoW and is not modelled; the probability of guessing "
+              "commitment bits is outside the theorems. The statement says a released header is followed by 'more than a full buffer' of "
+              "re-downloaded headers: the code (and the theorem) give exactly redownload_buffer_size headers behind the last released one. "
+              "With redownload_buffer_size = 0 the difficulty check of the first header of each later batch is made against the sync start's "
+              "nBits (previous_nBits falls back to m_chain_start when the buffer is empty), not against the previously released header. "
+              "Trusted: Coq kernel; extraction and driver glue; the hand transcription; model/Pow.v for the executable instance.")
 TECHNIQUE = "Coq proof (state-machine invariants) + differential correspondence on synthetic peer histories"
